@@ -105,7 +105,13 @@ func (gw *eventBasedGateway) NextAction(ctx context.Context, flow Flow) chan IAc
 	})
 
 	response := make(chan IAction, 1)
-	gw.mch <- nextActionMessage{response: response, flow: flow}
+	select {
+	case gw.mch <- nextActionMessage{response: response, flow: flow}:
+	case <-ctx.Done():
+		// the node's loop has ended with its context and the inbox is full (more tokens
+		// than it holds arrived since): the flow, which watches the same context, gets a
+		// channel on which no action ever arrives
+	}
 	return response
 }
 
